@@ -117,49 +117,58 @@ Lemma ext_eq_log_r P w1 w2 w2' : w_log w2' = w_log w2 -> ext P w1 w2 -> ext P w1
 Proof. intros H [s [E F]]. exists s. rewrite H. auto. Qed.
 
 (* ------------------------------------------------------------------ pair-free forms *)
-Definition open_core (d : dstm) (ts : Z) (w : world) : world :=
+(* stages of the opening function *)
+Definition open_reset (w : world) : world :=
   let c := w_c w in
-  let saved := c_in_ts c in
-  if negb (c_enabled c) && negb saved then set_c w (set_in_ts c false)
-  else
-    let c := set_in_ts c true in
-    if c_open c then set_c w (set_in_ts c saved)
-    else
-      let w := set_c w (mk_ctx (c_s c) (c_psize c) 0 (c_content c) (c_off_content c) (c_disc c) (c_seq c)
-                               (c_open c) true (c_enabled c) (c_use_ts c) (c_last_ts c) []) in
-      let w := match snd (ph_build d) with
-               | Some o => do_ser d w o (VArr (d_ph_vals d)) | None => w end in
-      let w := if d_has_clock d && has_member (d_pc d) "timestamp_begin" then logev w (ETs 0 ts) else w in
-      let w := do_ser d w (pc_op d)
-                      (VArr (pc_vals (s_mems (d_pc d)) (c_psize c) (c_seq c) ts (w_pcargs w))) in
-      let c := w_c w in
-      set_c w (mk_ctx (c_s c) (c_psize c) (c_at c) (c_content c) (c_at c) (c_disc c) (c_seq c)
-                      true saved (c_enabled c) (c_use_ts c) (c_last_ts c) (c_saved c)).
+  set_c w (mk_ctx (c_s c) (c_psize c) 0 (c_content c) (c_off_content c) (c_disc c) (c_seq c)
+                  (c_open c) true (c_enabled c) (c_use_ts c) (c_last_ts c) []).
+Definition open_hdr (d : dstm) (w : world) : world :=
+  match snd (ph_build d) with Some o => do_ser d w o (VArr (d_ph_vals d)) | None => w end.
+Definition open_mark (d : dstm) (ts : Z) (w : world) : world :=
+  if d_has_clock d && has_member (d_pc d) "timestamp_begin" then logev w (ETs 0 ts) else w.
+Definition open_pc (d : dstm) (ts : Z) (psize seq : nat) (w : world) : world :=
+  do_ser d w (pc_op d) (VArr (pc_vals (s_mems (d_pc d)) psize seq ts (w_pcargs w))).
+Definition open_fin (saved : bool) (w : world) : world :=
+  let c := w_c w in
+  set_c w (mk_ctx (c_s c) (c_psize c) (c_at c) (c_content c) (c_at c) (c_disc c) (c_seq c)
+                  true saved (c_enabled c) (c_use_ts c) (c_last_ts c) (c_saved c)).
+Definition open_do (d : dstm) (ts : Z) (w : world) : world :=
+  open_fin (c_in_ts (w_c w))
+    (open_pc d ts (c_psize (w_c w)) (c_seq (w_c w)) (open_mark d ts (open_hdr d (open_reset w)))).
+
+Definition open_core (d : dstm) (ts : Z) (w : world) : world :=
+  if negb (c_enabled (w_c w)) && negb (c_in_ts (w_c w)) then set_c w (set_in_ts (w_c w) false)
+  else if c_open (w_c w) then set_c w (set_in_ts (set_in_ts (w_c w) true) (c_in_ts (w_c w)))
+  else open_do d ts w.
 
 Lemma open_fn_eq d w :
   open_fn d w = open_core d (fst (preamble_ts d w (has_member (d_pc d) "timestamp_begin")))
                             (snd (preamble_ts d w (has_member (d_pc d) "timestamp_begin"))).
 Proof. unfold open_fn. rewrite let_pair. reflexivity. Qed.
 
-Definition close_core (d : dstm) (ts : Z) (w : world) : world :=
+(* stages of the closing function *)
+Definition close_begin (w : world) : world :=
   let c := w_c w in
-  let saved := c_in_ts c in
-  if negb (c_enabled c) && negb saved then set_c w (set_in_ts c false)
-  else
-    let c := set_in_ts c true in
-    if negb (c_open c) then set_c w (set_in_ts c saved)
-    else
-      let c := mk_ctx (c_s c) (c_psize c) (c_at c) (c_at c) (c_off_content c) (c_disc c) (c_seq c)
-                      (c_open c) true (c_enabled c) (c_use_ts c) (c_last_ts c) (c_saved c) in
-      let w := set_c w c in
-      let w := if d_has_clock d && has_member (d_pc d) "timestamp_end" then logev w (ETs 1 ts) else w in
-      let w := write_saved d w "timestamp_end" ts in
-      let w := write_saved d w "content_size" (Z.of_nat (c_content (w_c w))) in
-      let w := write_saved d w "events_discarded" (Z.of_nat (c_disc (w_c w))) in
-      let c := w_c w in
-      set_c w (mk_ctx (c_s c) (c_psize c) (c_psize c) (c_content c) (c_off_content c) (c_disc c)
-                      (if has_member (d_pc d) "packet_seq_num" then S (c_seq c) else c_seq c)
-                      false saved (c_enabled c) (c_use_ts c) (c_last_ts c) (c_saved c)).
+  set_c w (mk_ctx (c_s c) (c_psize c) (c_at c) (c_at c) (c_off_content c) (c_disc c) (c_seq c)
+                  (c_open c) true (c_enabled c) (c_use_ts c) (c_last_ts c) (c_saved c)).
+Definition close_mark (d : dstm) (ts : Z) (w : world) : world :=
+  if d_has_clock d && has_member (d_pc d) "timestamp_end" then logev w (ETs 1 ts) else w.
+Definition close_ws (d : dstm) (ts : Z) (w : world) : world :=
+  let w := write_saved d w "timestamp_end" ts in
+  let w := write_saved d w "content_size" (Z.of_nat (c_content (w_c w))) in
+  write_saved d w "events_discarded" (Z.of_nat (c_disc (w_c w))).
+Definition close_fin (d : dstm) (saved : bool) (w : world) : world :=
+  let c := w_c w in
+  set_c w (mk_ctx (c_s c) (c_psize c) (c_psize c) (c_content c) (c_off_content c) (c_disc c)
+                  (if has_member (d_pc d) "packet_seq_num" then S (c_seq c) else c_seq c)
+                  false saved (c_enabled c) (c_use_ts c) (c_last_ts c) (c_saved c)).
+Definition close_do (d : dstm) (ts : Z) (w : world) : world :=
+  close_fin d (c_in_ts (w_c w)) (close_ws d ts (close_mark d ts (close_begin w))).
+
+Definition close_core (d : dstm) (ts : Z) (w : world) : world :=
+  if negb (c_enabled (w_c w)) && negb (c_in_ts (w_c w)) then set_c w (set_in_ts (w_c w) false)
+  else if negb (c_open (w_c w)) then set_c w (set_in_ts (set_in_ts (w_c w) true) (c_in_ts (w_c w)))
+  else close_do d ts w.
 
 Lemma close_fn_eq d w :
   close_fn d w = close_core d (fst (preamble_ts d w (has_member (d_pc d) "timestamp_end")))
